@@ -91,6 +91,11 @@ CHECKS = {
          "L1: every role assignment reachable by UpdateProposer/UpdateChallenger (to X or X2, by governance or by the current holder) on two bridges is enumerated (the state space saturates at 16 assignments); L2: admin changes, executor-list changes (both through ExecuteMessages), bridge-info binding and an executor-change plan executed by the real EndBlocker (saturates at 36 states). In every state every message type of the module is delivered by every signer (governance/authority, every current and past role holder, batch submitter, creator, stranger), built so that it would succeed but for authorization; oracle = the property's role table on the model's current holders (allowed => succeeds, also for a new holder immediately; otherwise fails with an unchanged digest), signer read back through GetMsgV1Signers; ExecuteMessages batches are all-or-nothing with authority-only inner signers; SetBridgeInfo cannot re-point bridge id, address, L1 chain id or a set L1 client id.",
          "Trusted: as C11/C06. UpdateOracle is probed for its authorization class only (its data path is C15).",
          "DESIGN.md §6 C12"),
+ "C15": ("model_checking",
+         "explicit-state search over update/refresh histories + exhaustive vote-shape product per state",
+         "Mode S enumerates histories of oracle updates (three timestamps, full and partial pair coverage), validator-set refreshes (lower/equal/higher height x configured/other/empty client x same/other set) and oracle-flag toggles on the real UpdateOracle handler, connect x/oracle keeper, codecs and vote aggregator; Mode P executes, at the root (and every depth-1 state in the thorough tier), all 12^n combinations of per-validator vote shapes (absent, signed p/q, missing pair, missing timestamp, bad signature, other chain id / height / round, listed twice, non-commit empty / with extension) x unknown validator, and in every state the sender / update-height / equal-and-older-timestamp variations. Oracle (soundness direction): a changed price implies executor, flag on, height >= recorded set height, distinct known validators with a correctly signed price (by the harness's own signing bookkeeping) holding >= 2/3 of the recorded power, strictly larger timestamp; rejected => digest unchanged; set replaced => configured client and strictly higher height.",
+         "Trusted: as C06 plus connect's codecs/aggregator and CometBFT ed25519. Bounded: validator sets (1,1,1), (3,1,1) and (thorough) (2,1,1,1); depth 3 (quick) / 4 (thorough).",
+         "DESIGN.md §6 C15"),
 }
 NOT_YET = {}
 
